@@ -81,8 +81,13 @@ def load_known(prop):
 
 def trigger_off_flags(prop):
     flags = set()
-    for e in load_known(prop):
-        if e.get("status") == "open":
+    try:
+        with open(KNOWN) as f:
+            allf = json.load(f).get("findings", [])
+    except FileNotFoundError:
+        allf = []
+    for e in allf:
+        if e.get("status") == "open" and (e.get("property") == prop or prop in e.get("affects", [])):
             flags.update(e.get("trigger_off", []))
     return flags
 
